@@ -56,6 +56,21 @@ def gen_cases(tier, seed):
         k = int(rng.integers(1, 40))
         lin = rng.integers(0, int(np.prod(shp)), size=k)
         yield {"w": "index_random", "shape": list(shp), "lin": lin.tolist()}
+    # index lists as long as the index space: permutations of the full range (also with the end points in place), the reversed range,
+    # the full range with one entry repeated
+    for _ in range(12 if tier == "quick" else 120):
+        N = int(rng.integers(1, 4))
+        shp = gen.rand_shape(rng, N, 1, 4)
+        size = int(np.prod(shp))
+        full = np.arange(size)
+        perm = rng.permutation(size)
+        inner = full.copy()
+        if size > 3:
+            inner[1:-1] = rng.permutation(inner[1:-1])
+        rep = full.copy()
+        rep[int(rng.integers(0, size))] = int(rng.integers(0, size))
+        for lin in (perm, inner, full[::-1].copy(), rep):
+            yield {"w": "index_random", "shape": list(shp), "lin": [int(x) for x in lin], "full_length": True}
     # subscripts held in narrow integer types and index spaces beyond their range (the linear index must not inherit the type), both
     # memory orders; very large index spaces in int64
     wide = [("int8", [10, 13]), ("int8", [100, 100]), ("uint8", [200, 3]), ("int16", [300, 200]), ("uint16", [50000, 3, 2]), ("int32", [70000, 70000]),
@@ -112,8 +127,10 @@ def gen_cases(tier, seed):
         ncol = int(rng.integers(1, 4))
         hi = int(rng.integers(2, 4))
         na, nb = int(rng.integers(0, 7)), int(rng.integers(0, 7))
-        A = rng.integers(0, hi, size=(na, ncol))
-        B = rng.integers(0, hi, size=(nb, ncol))
+        # integer rows: a small alphabet (so that rows repeat and coincide), non-negative or centred on zero (negative entries)
+        lo = 0 if rng.random() < 0.6 else -int(rng.integers(1, 3))
+        A = rng.integers(lo, hi + (2 if lo < 0 else 0), size=(na, ncol))
+        B = rng.integers(lo, hi + (2 if lo < 0 else 0), size=(nb, ncol))
         if rng.random() < 0.3 and na:
             A = np.unique(A, axis=0)
             A = A[rng.permutation(A.shape[0])]
